@@ -8,7 +8,7 @@ PROP = {
             "atan, erf(x)-p with p->+-(1-1e-12), (x-r)^3/(x-r)^5, exponentials, near-step tanh, CDFs, non-monotone with one and with three roots, linear, "
             "|x-r|^q with inflection), accuracies from 1e-14*|root| to the bracket width; plus zero-at-end brackets and rejected brackets (isolated child). "
             "Non-trivial = the call evaluated the function >= 7 times (>= 3 Ridder iterations); distinct = hash of bracket, accuracy and family parameters",
-    "floors": {"quick": {"cases": 150000, "distinct_nontrivial": 50000, "ticks": {"Find_Root.iteration": 300000}},
+    "floors": {"quick": {"cases": 600000, "distinct_nontrivial": 570000, "ticks": {"Find_Root.iteration": 300000}},
                "thorough": {"cases": 15000000, "distinct_nontrivial": 400000, "ticks": {"Find_Root.iteration": 30000000}}},
     "technique": "runtime monitoring: call-trace wrapper around the user function + sign-change-window oracle on the returned point; isolated child for rejected brackets; ASan/UBSan build",
     "level_text": "Hundreds of thousands (thorough: tens of millions) of Find_Root calls on the real library with every abscissa at which the user function is called "
